@@ -70,8 +70,12 @@ def c15(tier):
                           profiles=(('on',) if tier != 'thorough' else ('on', 'off')),     # (C09 runs both profiles of these in both tiers)
                           note='DateTime date setters under any offset, range ends included (shared with C09): Ok exactly when the edited local date exists and is representable')
                        for f in ('c09_dt_set_year_holds', 'c09_dt_set_month_holds', 'c09_dt_set_day_holds', 'c09_dt_set_day_of_year_holds')]
+    # DateTime time setters up to the range ends (C15's own *_dt_set_* obligations keep a one-day margin): Ok / Err(OutOfRange) exactly, never a panic
+    dt_time_setters = [Ob('c09_dt_set_%s_holds' % u, abstractions=KERNELS, slices=signs,
+                          note='DateTime time setters under any offset, first and last representable day included (shared with C09): Err(OutOfRange) exactly when the edited local time is not a representable instant, never a panic')
+                       for u in ('hour', 'minute', 'second', 'milli', 'micro', 'nano')]
     return [Ob('c01_days_to_date_holds', slices=[{'d': (-2**31, -1)}, {'d': (0, 2**31 - 1)}], note='contract of days_to_date used below'),
-            Ob('c01_date_to_days_holds', note='contract of date_to_days used below')] + kernel_obs() + dt_date_setters + \
+            Ob('c01_date_to_days_holds', note='contract of date_to_days used below')] + kernel_obs() + dt_date_setters + dt_time_setters + \
            [Ob(f, abstractions=A if '_date_set_' in f else (), slices=_c15_slices(f)) for f in fns_of('c15_', 'c15.rs')]
 
 def _c15_slices(f):
